@@ -65,6 +65,12 @@ var c09Mutations = []c09Mut{
 	{"kawpow-difficulty-present-before-fork", func(m *types.WorkObject) { m.WorkObjectHeader().SetKawpowDifficulty(big.NewInt(5)) }},
 	{"time-far-future", func(m *types.WorkObject) { m.WorkObjectHeader().SetTime(uint64(time.Now().Unix()) + 16 + 60) }},
 	{"time-just-past-allowed", func(m *types.WorkObject) { m.WorkObjectHeader().SetTime(uint64(time.Now().Unix()) + 15 + 3) }},
+	{"number+2^64+1", func(m *types.WorkObject) {
+		m.SetNumber(new(big.Int).Add(bump(m.Number(common.ZONE_CTX)), new(big.Int).Lsh(big.NewInt(1), 64)), common.ZONE_CTX) // parent + 1 modulo 2^64, one more
+	}},
+	{"number+2^64", func(m *types.WorkObject) {
+		m.SetNumber(new(big.Int).Add(m.Number(common.ZONE_CTX), new(big.Int).Lsh(big.NewInt(1), 64)), common.ZONE_CTX) // parent + 1 modulo 2^64
+	}},
 	{"time-top-bit-set", func(m *types.WorkObject) { m.WorkObjectHeader().SetTime(uint64(1)<<63 + uint64(time.Now().Unix())) }},
 	{"time-max-uint64", func(m *types.WorkObject) { m.WorkObjectHeader().SetTime(^uint64(0) - uint64(3)) }},
 	{"extra-too-long", func(m *types.WorkObject) { m.Header().SetExtra(make([]byte, params.MaximumExtraDataSize+1)) }},
